@@ -92,6 +92,16 @@ def correspondence(ctx, model, sc, res, byno, stats):
             continue
         g = byno[h][0]
         pre, post = S.parse_adump(res[pre_id]), S.parse_adump(res[i])
+        chain_ids = set()
+        c = pre["best"]
+        while c is not None and c in pre["blocks"]:
+            chain_ids.add(c)
+            c = g.alt[c]["parent"]
+        if any(b["dirty"] and a not in chain_ids for a, b in pre["blocks"].items()):
+            # unsaved blocks off the active chain: the result depends on the iteration order of the unordered tips_
+            # set (DESIGN F10, corpus/C09/F10_dirty_fork_erased_from_tips.json); not compared
+            stats["corr_skipped_dirty_forks"] += 1
+            continue
         l1 = S.model_fin_line(g, pre, CFG["alt_maxreorg"], CFG["alt_preserve"])
         l2 = S.model_fin_line(g, pre, CFG["alt_maxreorg"], CFG["alt_preserve"], reverse_tips=True)
         lines.append("m%s %s" % (i, l1))
@@ -303,7 +313,7 @@ def run(ctx):
     quick = ctx.tier == "quick"
     # (mode, save_every, histories, steps)
     # save_every 16 > alt_preserve: finalization then jumps by more than the preserved window in one call
-    plan = [("fin", 1, 4, 110), ("loaded", 1, 4, 110), ("loaded", 3, 3, 110), ("fin", 4, 2, 110), ("fin", 16, 2, 110)] if quick else \
+    plan = [("fin", 1, 4, 110), ("loaded", 1, 4, 110), ("loaded", 3, 3, 110), ("fin", 4, 2, 110), ("fin", 16, 3, 110)] if quick else \
            [("fin", 1, 40, 160), ("loaded", 1, 40, 160), ("loaded", 3, 30, 160), ("fin", 4, 20, 160), ("loaded", 7, 20, 200),
             ("fin", 16, 20, 200), ("loaded", 17, 10, 200)]
     evaluations = 0
